@@ -1,7 +1,7 @@
 (* C01 — property theorems.  Statements only: each is closed by [exact] of a lemma proved in
    coq/C01/, followed by Print Assumptions. *)
 From Coq Require Import QArith ZArith List Bool Permutation.
-From Scenic Require Import C01.Prob C01.ProbProofs C01.Sampler C01.Prior C01.SamplerProofs C01.RejectionProofs.
+From Scenic Require Import C01.Prob C01.ProbProofs C01.Sampler C01.Prior C01.SamplerProofs C01.RejectionProofs C01.ChoiceProofs C01.ReachProofs.
 Import ListNotations.
 Open Scope Q_scope.
 
@@ -31,19 +31,24 @@ Theorem C01_schedule_irrelevant : forall g l1 l2 vis m,
 Proof. exact schedule_irrelevant. Qed.
 Print Assumptions C01_schedule_irrelevant.
 
-(* sampler = prior, for every DAG in creation order and every dependency list *)
+(* sampler = prior, for every DAG in creation order and every dependency list (unconditional:
+   the prior's needed set is proved equal to the set the sampler visits) *)
+Theorem C01_needed_is_dfs : forall g deps,
+  wf_dag g -> (forall d, In d deps -> (d < length g)%nat) -> same_set (needed g deps) (dfs_order g deps).
+Proof. exact needed_is_dfs. Qed.
+Print Assumptions C01_needed_is_dfs.
+
 Theorem C01_sampler_is_prior : forall g deps,
   wf_dag g -> (forall d, In d deps -> (d < length g)%nat) ->
-  same_set (needed g deps) (dfs_order g deps) ->
   forall f, mass f (sample_all g deps) == mass f (prior g deps).
-Proof. intros g deps W D S f. exact (sampler_is_prior_given_reach g deps W D S _). Qed.
+Proof. exact sampler_mass_is_prior. Qed.
 Print Assumptions C01_sampler_is_prior.
 
 Theorem C01_order_irrelevant : forall g deps1 deps2,
   wf_dag g -> (forall d, In d deps1 -> (d < length g)%nat) -> (forall d, In d deps2 -> (d < length g)%nat) ->
-  same_set (dfs_order g deps1) (dfs_order g deps2) ->
+  (forall d, In d deps1 <-> In d deps2) ->
   teq (sample_all g deps1) (sample_all g deps2).
-Proof. exact order_irrelevant. Qed.
+Proof. exact deps_order_irrelevant. Qed.
 Print Assumptions C01_order_irrelevant.
 
 (* resample: same law given the same operand values, drawn independently *)
@@ -68,27 +73,27 @@ Proof. exact @retry_law. Qed.
 Print Assumptions C01_retry_law.
 
 Theorem C01_rejection_exact : forall g deps,
-  wf_dag g -> (forall d, In d deps -> (d < length g)%nat) -> same_set (needed g deps) (dfs_order g deps) ->
+  wf_dag g -> (forall d, In d deps -> (d < length g)%nat) ->
   forall rs acts n j (f : memo -> bool), (j < n)%nat ->
   expect (fun x => ind (f (fst x) && Nat.eqb (snd x) (S j))) (retry (attempt g deps rs acts) n 1) ==
   joint g deps rs acts f * qpow (rejmass (attempt g deps rs acts)) j.
-Proof. exact rejection_exact. Qed.
+Proof. exact rejection_exact_u. Qed.
 Print Assumptions C01_rejection_exact.
 
 Theorem C01_rejection_probability : forall g deps,
-  wf_dag g -> (forall d, In d deps -> (d < length g)%nat) -> same_set (needed g deps) (dfs_order g deps) ->
+  wf_dag g -> (forall d, In d deps -> (d < length g)%nat) ->
   forall rs acts, wf_tree (attempt g deps rs acts) ->
   rejmass (attempt g deps rs acts) == 1 - accept g deps rs acts.
-Proof. exact rejection_probability. Qed.
+Proof. exact rejection_probability_u. Qed.
 Print Assumptions C01_rejection_probability.
 
 (* P(f | a scene is returned) = prior(f | enforced requirements), whatever the bound *)
 Theorem C01_returned_is_conditioned_prior : forall g deps,
-  wf_dag g -> (forall d, In d deps -> (d < length g)%nat) -> same_set (needed g deps) (dfs_order g deps) ->
+  wf_dag g -> (forall d, In d deps -> (d < length g)%nat) ->
   forall rs acts n (f : memo -> bool),
   expect (fun x => ind (f (fst x))) (retry (attempt g deps rs acts) n 1) * accept g deps rs acts ==
   joint g deps rs acts f * expect (fun _ => 1) (retry (attempt g deps rs acts) n 1).
-Proof. exact returned_is_conditioned_prior. Qed.
+Proof. exact returned_is_conditioned_prior_u. Qed.
 Print Assumptions C01_returned_is_conditioned_prior.
 
 Theorem C01_retry_gives_up : forall (A : Type) (t : ptree A) n k,
@@ -103,6 +108,23 @@ Theorem C01_generate_mixture : forall g deps rs n (h : memo * nat -> Q),
 Proof. exact generate_mixture. Qed.
 Print Assumptions C01_generate_mixture.
 
+(* weighted discrete choice: random.choices on cumulative weights returns index i with
+   probability w_i / sum(w), and never an index outside the list *)
+Theorem C01_weighted_prob : forall ws i, (i < length ws)%nat ->
+  mass (fun z => Z.eqb z (Z.of_nat i)) (weighted_tree ws) == nth i ws 0 / qsum ws.
+Proof. exact weighted_prob. Qed.
+Print Assumptions C01_weighted_prob.
+
+(* CPython's bisect on u*total: index i is returned exactly on [cum(i-1), cum(i)) *)
+Theorem C01_choices_interval : forall cum u,
+  sorted cum -> cum <> [] -> 0 <= u -> u * last cum 0 < last cum 0 ->
+  let i := choices_index cum u in
+  (i < length cum)%nat /\ u * last cum 0 < nth i cum 0 /\
+  (forall j, (j < i)%nat -> nth j cum 0 <= u * last cum 0).
+Proof. exact choices_interval. Qed.
+Print Assumptions C01_choices_interval.
+
+
 (* non-vacuity: a 6-node program with a shared parent, a clone, one hard and one soft requirement *)
 Definition ex_g : dag :=
   [ mkNode (KConst (VZ 1)) []; mkNode (KConst (VZ 3)) [];
@@ -111,7 +133,7 @@ Definition ex_g : dag :=
     mkNode (KOp OAdd) [2; 2]%nat;                   (* x + x *)
     mkNode (KDRangeW 0 [1; 3]) [];                  (* selector with weights 1, 2 *)
     mkNode KMux [5; 4; 3]%nat ].                    (* Options({x+x: 1, w: 2}) *)
-Definition ex_rs : list req := [mkReq 1 (CLt (RNode 2) (RConst 3)); mkReq (1#2) (CLt (RNode 3) (RNode 6))].
+Definition ex_rs : list req := [mkReq 1 (CLt (RNode 2) (RConst (VZ 3))); mkReq (1#2) (CLt (RNode 3) (RNode 6))].
 Example C01_example :
   wf_dagb ex_g = true /\ same_setb (needed ex_g [6; 2]%nat) (dfs_order ex_g [6; 2]%nat) = true /\
   dfs_order ex_g [6; 2]%nat = [5; 0; 1; 2; 4; 3; 6]%nat /\
